@@ -55,7 +55,14 @@ def make_runner(kernel, u, logl_fn, assignments, beta, ms, periodic, reflective,
     x = u.copy()
     logl = logl_fn(x)
     cls = TPCNRunner if kernel == "tpcn" else RWMRunner
-    r = cls(u, x, logl, None, assignments, beta, ms, lambda xx: (logl_fn(xx), None), lambda q: q.copy(), None, 1, 1.0 / d,
+    def point_transform(q):
+        # the identity, written for ONE point parameter by parameter (the single-point contract of prior_transform)
+        q = np.asarray(q)
+        out = np.zeros_like(q)
+        for i in range(d):
+            out[i] = q[i]
+        return out
+    r = cls(u, x, logl, None, assignments, beta, ms, lambda xx: (logl_fn(xx), None), point_transform, None, 1, 1.0 / d,
             None if periodic is None else np.asarray(periodic), None if reflective is None else np.asarray(reflective), False)
     r.sigmas[:] = sigma
     return r
